@@ -104,8 +104,8 @@ def opSweep (args : List String) : String :=
     match mkCov (K := K) d b es, parseAll (K := K) vs with
     | some m, some v =>
       match bdCholBlock (bdTol : K) m with
-      | some f => "ok " ++ renderAll (sweep f v.toArray).toList
-      | none => "notpd"
+      | .ok f => "ok " ++ renderAll (sweep f v.toArray).toList
+      | .error _ => "notpd"
     | _, _ => "bad-op"
   | _ => "bad-op"
 
@@ -142,7 +142,7 @@ def opBandIdx (args : List String) : String :=
     for coords/vectors the third group is the single number `nobs`) -/
 def opParse (args : List String) : String :=
   let attr (t : String) : Option CovParse.Attr :=
-    if t = "m" then some .missing else if t = "b" then some .bad else t.toNat?.map .val
+    if t = "m" ∨ t = "none" then some .missing else if t = "b" then some .bad else t.toNat?.map .val
   let word (t : String) : Option (Option Rat) := if t = "bad" then some none else (rat? t).map some
   let rec pairs : List String → Option (List (Rat × Bool))
     | [] => some []
